@@ -32,6 +32,12 @@ pub extern "C" fn c13_wrap_seq() {
     let g11 = a.load();
     vassert(**g11 == 8, 3);
     vassert(**g9 == 7, 4);
+    // the eight guards created before the wrap still denote the old value (the container no longer owns it)
+    let mut i = 0;
+    while i < 8 {
+        vassert(**gs[i] == 7, 7);
+        i += 1;
+    }
     drop(g9);
     drop(g10);
     drop(gs);
@@ -39,6 +45,60 @@ pub extern "C" fn c13_wrap_seq() {
     let f = a.load_full();
     vassert(*f == 8, 5);
     vassert(Arc::strong_count(&f) == 2, 6);
+    cover(1);
+}
+
+/// The wrap when the thread does NOT get its own node back: thread 2 used the crate after thread 1 and exited
+/// (its node sits earlier in the list and is free), so at the wrap thread 1 continues on that node while its
+/// eight guards still live in the slots of the retired one. "After such a wrap-around all other guarantees
+/// continue to hold": a later store (by the same thread or by a third one) must honour those guards, every
+/// guard still denotes the value it was created for, and everything is given back in the end.
+#[no_mangle]
+pub extern "C" fn c13_wrap_moved() {
+    let a = ArcSwap::from_pointee(7u64);
+    let first = Arc::as_ptr(&a.load_full()) as usize;
+    let who = nondet(2);
+    assume(who < 2);
+    let mut gs: [Option<arc_swap::Guard<Arc<u64>>>; 8] = [None, None, None, None, None, None, None, None];
+    on_thread(1, || drop(a.load()));
+    on_thread(2, || drop(a.load()));
+    thread_exit(2);
+    let g0 = nondet(1);
+    assume(g0 % 4 == 0);
+    on_thread(1, || {
+        let mut i = 0;
+        while i < 8 {
+            gs[i] = Some(a.load());
+            i += 1;
+        }
+        set_generation(g0);
+        let g9 = a.load();
+        vassert(**g9 == 7, 1);
+        let g10 = a.load();
+        vassert(**g10 == 7, 2);
+        drop(g9);
+        drop(g10);
+    });
+    // the value is replaced: by the thread that wrapped, or by another one
+    if who == 0 {
+        on_thread(1, || a.store(Arc::new(8)));
+    } else {
+        on_thread(3, || a.store(Arc::new(8)));
+    }
+    on_thread(1, || {
+        let mut i = 0;
+        while i < 8 {
+            let g = gs[i].take().unwrap();
+            vassert(**g == 7 && Arc::as_ptr(&g) as usize == first, 3);
+            drop(g);
+            i += 1;
+        }
+        let g = a.load();
+        vassert(**g == 8, 4);
+    });
+    vassert(slots_all_empty(), 5);
+    let f = a.into_inner();
+    vassert(*f == 8 && Arc::strong_count(&f) == 1, 6);
     cover(1);
 }
 
